@@ -29,7 +29,13 @@ def sequence_passthrough(R, ufs):
             lst = ex.cont(src)
             ex.assume(z3.And(r != PyNone, ln(r) == lst.n))
             arr = lst.arr
-            ex.add_universal([TInt], lambda i: item(r, i) == arr[i], "sequence-copy")
+            if lst.ty.e is TStr:
+                bs = z3.Function("box_str", z3.StringSort(), ObjSort)
+                ex.add_universal([TInt], lambda i: item(r, i) == bs(arr[i]), "sequence-copy")
+            elif isinstance(lst.ty.e, TObj):
+                ex.add_universal([TInt], lambda i: item(r, i) == arr[i], "sequence-copy")
+            else:
+                raise Unsupported("%s of a list of %r" % (name, lst.ty.e))
             return VObj(r)
         return f
     R.constructors["list"] = passthrough("aslist")
